@@ -52,7 +52,7 @@ CHECKS = {
             "Every dictionary in every payload of unbounded-cardinality histories stays within min(configured limit, 2^index bits) across several overflow/reset cycles per limit; with dictionaries disabled none occurs.",
             "'Arbitrarily long' restated as several overflow/reset cycles; 32->64-bit transition unreachable.", "§6 C13"),
     "C14": ("rt", "exploration", "runtime monitor over a memory-limit ladder: error classification, published arrow_memory_inuse gauge, metamorphic monotonicity",
-            "Each encoded stream is decoded under 16 limits: 12 from 1 byte to 70 MiB around its measured peak plus 2^32, 2^63-1, 2^63 and 2^64-1: no panic, reported in-use within [0,limit], first refusal recognisable as ErrConsumerMemoryLimit, decoded batches equal the input, decoded prefix monotone in the limit.",
+            "Each encoded stream is decoded under 16 limits: 12 from 1 byte to 70 MiB around its measured peak plus 2^32, 2^63-1, 2^63 and 2^64-1: no panic, reported in-use within [0,limit], first refusal recognisable as ErrConsumerMemoryLimit, decoded batches equal the input, decoded prefix monotone in the limit; a big batch followed by a small one on new streams is scanned over 49 limits and each, once decodable, must stay decodable under every larger limit (also across a mid-batch refusal).",
             "In-use memory is observed through the metric the consumer publishes at call boundaries.", "§6 C14"),
     "C15": ("rt", "fault_enumeration", "CheckedAllocator leak monitor + input immutability monitor, with encode errors injected at every verif hook site x hit",
             "Producer histories (schema updates, overflow/reset, natural oversize errors, and an error injected at each encode-path site on its 1st..8th hit) must leave the protobuf serialisation of every input unchanged and CurrentAlloc()==0 after Close.",
@@ -61,7 +61,7 @@ CHECKS = {
             "N producer/consumer pairs (in every other round all consumers are built from one option list created once) run concurrently on 16/4 Ps started on a barrier; zero race reports with a repository frame and every stream's per-batch canonical hash equals its sequential run.",
             "The race detector only reports races on executed, overlapping accesses; overlap is measured and gated.", "§6 C16"),
     "C17": ("obf", "exploration", "runtime monitor: paired structural walk of input vs output + substitution-table (function / injective / length) monitor per processor instance",
-            "Hostile documents in encrypt_all and attribute-list modes for the three signals: structure, counts, order, types and every non-targeted byte preserved; the substitution table accumulated per processor instance is a length-preserving injection (all 256 one-byte strings enumerated; thorough: all 65,536 two-byte strings); one instance is also driven from 8 goroutines (in odd cases the FIRST use of fresh instances is concurrent), half of the list-mode instances leave encrypt_all at its default, and half of the documents are submitted under cancelled / part-way cancelled request contexts.",
+            "Hostile documents in encrypt_all and attribute-list modes for the three signals: structure, counts, order, types and every non-targeted byte preserved; the substitution table accumulated per processor instance is a length-preserving injection that actually replaces (a distinct targeted original of 8+ bytes must not come out unchanged; key_length 1/2/3/16/128) (all 256 one-byte strings enumerated; thorough: all 65,536 two-byte strings); one instance is also driven from 8 goroutines (in odd cases the FIRST use of fresh instances is concurrent), half of the list-mode instances leave encrypt_all at its default, and half of the documents are submitted under cancelled / part-way cancelled request contexts.",
             "Targeted set follows the code's behaviour; below listed keys and for named trace fields in list mode both 'unchanged' and 'F(original)' are accepted.", "§6 C17"),
     "C18": ("bp", "exploration", "runtime monitor: export context / cancellation observation + recorded spans (SpanRecorder), with enumerated merge positions and cancellation subsets",
             "Exports fed by >=2 request contexts must carry no caller value, never be cancelled by a caller, have no parent and link to/from every contributor; single-context exports are children of that request (callers end their own span on return in half of the scenarios); enumerated for 2..20 contributors with the differing context at every position and every cancellation subset of n<=4 contributors.",
